@@ -55,6 +55,21 @@ CHECKS = {
     note="Trusted: TLC; fontTools otTables decompiler; anchor-name parsing re-implemented lexically in the harness.",
     technique="TLA+ mark-attachment interpreter evaluated by TLC on compiled tables; exhaustive TLC check of the class/lookup ordering rule",
     design="5 C06"),
+ "C18": dict(
+    text="GdefCursTrace.tla states the expected GDEF glyph classes (categories restricted to exported glyphs, invalid values "
+         "ignored, user GlyphClassDef left alone), caret lists (rounded, increasing) and cursive records (rounded entry/exit, "
+         "RightToLeft flag by glyph direction or anchor suffix); TLC evaluates them on the compiled GDEF/GPOS of every generated "
+         "font; CursMC.tla checks the lookup split rule exhaustively.",
+    note="Trusted: TLC; fontTools otTables decompiler; direction classification recomputed from Unicode Script + GSUB closure.",
+    technique="TLA+ statement of GDEF/caret/cursive expectations evaluated by TLC on compiled tables; exhaustive TLC check of the split rule",
+    design="5 C18"),
+ "C20": dict(
+    text="Layout.tla models feaLib's registration semantics and the kern writer's explicit registration; TLC proves C20 holds "
+         "exactly outside the known-finding signature (and a strict config must fail); LayoutTrace.tla evaluates the "
+         "reachability clause on the compiled ScriptList/FeatureList/lookups of every generated font.",
+    note="Trusted: TLC; fontTools otTables decompiler.",
+    technique="TLA+ registration model checked by TLC + TLC evaluation of reachability on compiled GPOS",
+    design="5 C20"),
  "C07": dict(
     text="Purity.tla states `no step of a call without inplace changes the sources` as an action property over the call "
          "protocol (incl. compile_variable's save/override/restore of compiler options and the raise path) and TLC checks it; "
